@@ -273,14 +273,6 @@ def immutable_views(ctx, pairs, rng):
         vp = views_problem(o, list(pairs), ks)
         if vp:
             ctx.violation(f"immutable-view|{name}|{vp}", {"pairs": pairs}, "")
-    if any(not isinstance(v, str) or not isinstance(k, str) for k, v in pairs):
-        return  # values that are not text: the mappings are containers like any other; the string form is not judged
-    # one-shot iterables (generator, iterator, zip) as constructor input
-    for cname, cls in (("MultiMapping", MultiMapping), ("MutableMultiMapping", MutableMultiMapping), ("QueryParams", QueryParams), ("FormData", FormData)):
-        for iname, it in (("generator", (p for p in pairs)), ("iter", iter(list(pairs))), ("zip", zip([k for k, _ in pairs], [v for _, v in pairs]))):
-            vp = views_problem(cls(it), list(pairs), ks)
-            if vp:
-                ctx.violation(f"immutable-view|{cname}-from-{iname}|{vp}", {"pairs": pairs}, "")
     # mapping constructor: a dict and other Mapping implementations
     import collections
     import types
@@ -294,6 +286,14 @@ def immutable_views(ctx, pairs, rng):
                 vp = f"exception-{type(e).__name__}"
             if vp:
                 ctx.violation(f"immutable-view|{cname}-from-{mname}|{vp}", {"pairs": pairs}, "")
+    if any(not isinstance(v, str) or not isinstance(k, str) for k, v in pairs):
+        return  # values that are not text: the mappings are containers like any other; the string form is not judged
+    # one-shot iterables (generator, iterator, zip) as constructor input
+    for cname, cls in (("MultiMapping", MultiMapping), ("MutableMultiMapping", MutableMultiMapping), ("QueryParams", QueryParams), ("FormData", FormData)):
+        for iname, it in (("generator", (p for p in pairs)), ("iter", iter(list(pairs))), ("zip", zip([k for k, _ in pairs], [v for _, v in pairs]))):
+            vp = views_problem(cls(it), list(pairs), ks)
+            if vp:
+                ctx.violation(f"immutable-view|{cname}-from-{iname}|{vp}", {"pairs": pairs}, "")
     # query string round trip
     q = QueryParams(list(pairs))
     s = str(q)
@@ -351,7 +351,7 @@ def run(ctx):
         immutable_views(ctx, pairs, rng)
         ctx.case(("q", tuple(pairs)) if len(pairs) > 1 else None)
         if i % 4 == 0:
-            mixed = [(rng.choice(["a", "b", "", 7]), rng.choice(["x", "", 0, None, 1.5, b"raw", ("t",), True])) for _ in range(rng.randrange(1, 6))]
+            mixed = [(rng.choice(["a", "b", "", 7]), rng.choice(["x", "", 0, None, 1.5, b"raw", ("t",), True, ("p", "q"), (), ["l", "m"], []])) for _ in range(rng.randrange(1, 6))]
             immutable_views(ctx, mixed, rng)
         ab = [(rng.choice("ab"), rng.choice((1, 2))) for _ in range(rng.randrange(0, 5))]
         acase = aliasing(ctx, ab, rng)
